@@ -75,12 +75,9 @@ def random_names(rng, n):
     return out[:n]
 
 
-def run(prop, tier):
-    t0 = time.time()
-    wd = vlib.workdir(prop)
-    seed = vlib.seed()
+def collect(tier, wd, seed):
+    """Runs the model check, the real adapter against the mock, and the trace judge. Returns (mc, tr, cases, observed)."""
     hx = vlib.cargo_build("hx-http")
-    rep = vlib.Reporter(prop)
     cfg, maxlen = MC[tier]
     # 1. the grammar and the prescribed builder, for all names over the reserved alphabet; export of the names
     mc = vlib.run_tlc("MC_SessionUrl", cfg, wd, workers=4 if tier == "quick" else 8, timeout=300 if tier == "quick" else 1500)
@@ -129,6 +126,18 @@ def run(prop, tier):
                       env_extra={"TRACE": outp}, java_opts=["-Xss1g", "-Dtlc2.tool.queue.IStateQueue=StateDeque"])
     if not tr.ok or tr.marked["NOTCONSUMED"] or tr.distinct != len(observed) + 1:
         raise vlib.ToolError("trace validation did not consume all %d records (distinct=%d):\n%s" % (len(observed), tr.distinct, tr.output[-2000:]))
+    return mc, tr, cases, observed
+
+
+def run(prop, tier):
+    t0 = time.time()
+    wd = vlib.workdir(prop)
+    seed = vlib.seed()
+    rep = vlib.Reporter(prop)
+    mc, tr, cases, observed = collect(tier, wd, seed)
+    cfg, maxlen = MC[tier]
+    exported = [c for c in cases if c["kind"] == "alphabet" and c["script"] == "ok"]
+    configs = {(c["sid"], c["secret"], c["pubkey"]) for c in cases}
     groups = {}
     notes = {}
     for f in tr.marked["FAIL"]:
@@ -167,6 +176,24 @@ def run(prop, tier):
             "further_failing_names": [show_name(x["vec"]["name"]) for x, _ in obs[1:40]],
             "seed": seed,
             "how_to_replay": "bin/check %s %s  (VERIF_SEED=%d; case i=%d; harness `hx-http --in cases.ndjson --out observed.ndjson`, then Trace_SessionUrl)" % (prop, tier, seed, v["i"])})
+    # connection level: which name the session service is asked about after a cookie was presented and discarded (Conn.tla behaviours)
+    hxc = vlib.cargo_build("hx-core")
+    cm = vlib.run_tlc("MC_Conn", "MC_ConnQuickLogin.cfg", wd, workers=4, timeout=900)
+    if not cm.ok:
+        raise vlib.ToolError("TLC reports %s on MC_ConnQuickLogin.cfg:\n%s" % (cm.violated, cm.output[-2000:]))
+    behs = [b for b in cm.marked["REPLAY"] if any(ev["e"] == "call" and ev["c"]["a"] == "auth" for r in b["hist"] for ev in r["obs"])]
+    cinp, coutp = os.path.join(wd, "conn_in.ndjson"), os.path.join(wd, "conn_obs.ndjson")
+    vlib.write_ndjson(cinp, behs)
+    vlib.run_bin(hxc, ["conn", "--in", cinp, "--out", coutp, "--seed", str(seed), "--threads", "12"], timeout=1800)
+    cobs = vlib.read_ndjson(coutp)
+    ct = vlib.run_tlc("Trace_ConnProps", "Trace_ConnProps.cfg", wd, workers=1, timeout=900, markers=("FAIL", "NOTCONSUMED"),
+                      env_extra={"TRACE": coutp, "PROP": "C12"}, java_opts=["-Xss1g", "-Dtlc2.tool.queue.IStateQueue=StateDeque"])
+    if not ct.ok or ct.marked["NOTCONSUMED"] or ct.distinct != len(cobs) + 1:
+        raise vlib.ToolError("Trace_ConnProps did not consume all %d records:\n%s" % (len(cobs), ct.output[-2000:]))
+    import conn_check
+    for f in ct.marked["FAIL"]:
+        o = cobs[f["line"] - 1]
+        rep.violation("C12 C12_AsksAboutClaimedName [%s]" % conn_check.describe(behs[o["i"]]), {"failing_clauses": sorted(f["clauses"]), "abstract_behaviour": behs[o["i"]], "observed": o, "seed": seed})
     rc = rep.finish()
     for c, obs in sorted(notes.items()):
         o = obs[0]
